@@ -8,7 +8,7 @@ import random
 from vlib.programs import gen_program, Built, World, playback_function_for, clone
 from vlib.values import InterruptLike
 
-EVENTS = ['record_and_replay', 'failed_replay', 'interrupted_in_body', 'discarded', 'raises']
+EVENTS = ['record_and_replay', 'failed_replay', 'interrupted_in_body', 'discarded', 'raises', 'replay_imported']
 
 
 def give_past(rec, spy, seed, ctx=None, like=None):
@@ -24,6 +24,11 @@ def give_past(rec, spy, seed, ctx=None, like=None):
             q = clone(like)
             q['body'] = [st for st in q['body'] if st['op'] != 'threads']
             q['opts'] = dict(q.get('opts', {}), raise_rate=0.0)
+        if ev == 'replay_imported':
+            replay_imported(rec)
+            if ctx is not None:
+                ctx.count('past_' + ev)
+            continue
         n0 = len(spy.log)
         faults = {}
         if ev == 'interrupted_in_body':
@@ -52,3 +57,17 @@ def give_past(rec, spy, seed, ctx=None, like=None):
     spy._saves = 0
     if not was_enabled:
         rec.disable_recording()
+
+
+def replay_imported(rec):
+    """A recording that was stored through the cassette API (imported / hand-built fixture: no recorder metadata such as the
+    duration) is replayed; play() fails on it, which must leave the recorder as idle as any other failed replay."""
+    cas = rec.tape_cassette
+    try:
+        r = cas.create_new_recording('Imported')
+        r.set_data('k', 1)
+        r.add_metadata({'imported': True})
+        cas.save_recording(r)
+        rec.play(r.id, lambda recording: None)
+    except BaseException:  # noqa - the past is allowed to fail
+        pass
